@@ -1,4 +1,5 @@
 import BigtoolsModel.FileOfBed
+import BigtoolsModel.OverlapsGen
 import BigtoolsModel.BlockSpan
 import BigtoolsModel.Query
 import BigtoolsModel.BedQueryBytes
@@ -58,5 +59,16 @@ theorem C04_query_misses_without_cover :
     queryVia (bedKeep 500 600) id (candidates [⟨0, 0, 20, [⟨0,1000,0⟩, ⟨10,20,1⟩]⟩, ⟨0, 30, 60, [⟨30,40,2⟩, ⟨50,60,3⟩]⟩] 0 500 600) 0 = [] ∧
     querySpec (bedKeep 500 600) id [⟨0, 0, 20, [⟨0,1000,0⟩, ⟨10,20,1⟩]⟩, ⟨0, 30, 60, [⟨30,40,2⟩, ⟨50,60,3⟩]⟩] 0 = [⟨0,1000,0⟩] :=
   bed_query_misses_without_cover
+
+end RT
+
+namespace RT
+
+/-- **The code's own pruning predicate.** `Gen.overlaps` is regenerated from the Rust source of `overlaps` (and of the
+    functions it calls) in bbiread.rs on every run; for all arguments it is the `ov` with which the search theorems
+    of bigBed range queries are stated. A change to the source that alters the predicate breaks this obligation. -/
+theorem C04_source_overlaps_is_the_models_ov (q qs qe b1 b1s b2 b2e : Nat) :
+    Gen.overlaps q qs qe b1 b1s b2 b2e = ov ⟨q, qs⟩ ⟨q, qe⟩ ⟨b1, b1s⟩ ⟨b2, b2e⟩ :=
+  gen_overlaps_eq_ov q qs qe b1 b1s b2 b2e
 
 end RT
